@@ -137,17 +137,12 @@ Proof.
     unfold all_srows. destruct (combine order sizes); [congruence|discriminate].
 Qed.
 
-Definition stranded_guard (p : spipeline) (order sizes : list Z) (da : list (Z * iv)) (dw : list (Z * swin)) : Prop :=
-  match p with SValues => True | SValuesMean0 => exists c, equal_columns c (all_srows order sizes da dw) end.
-
 Theorem stranded_spec_current : forall p order sizes (csa : list (list (Z * iv))) (csw : list (list (Z * swin))),
   NoDup order -> length order = length sizes -> (0 < length sizes)%nat ->
   csa <> [] -> Forall (fun c => c <> []) csa -> Forall (fun c => c <> []) csw ->
   ordered order (concat csa) -> ordered order (concat csw) ->
-  stranded_guard p order sizes (concat csa) (concat csw) ->
   run_stranded p order sizes csa csw = Some (spec_stranded p order sizes (concat csa) (concat csw)).
 Proof.
-  intros p order sizes csa csw Hnd Hlen Hpos Ha Hna Hnw Hoa How Hg.
+  intros p order sizes csa csw Hnd Hlen Hpos Ha Hna Hnw Hoa How.
   unfold run_stranded, red_mean_current. apply stranded_spec_with; auto.
-  intros ->. destruct Hg as (c & Hc). apply (reduce_mean_pinned c). exact Hc.
 Qed.
